@@ -9,13 +9,70 @@
      dq "   sq '   bs \   sl /   st *   lp ( rp ) lb [ rb ] lc { rc } lt < gt >   sc ;  eq =  co ,  cl :
      d0 0   d8 8   x   e   b   a   n   u   dot .   mi -   pl +   us _   qm ?  am &  pi |  ex !  hash #
      lf LF  cr CR  tab TAB  sp space  nul 0x00   inv 0x80 (never valid UTF-8)
-     u2 a 2-byte character (U+00E9)   u3 a 3-byte character (U+20AC)   bom U+FEFF (3 bytes)      *)
+     u2 a 2-byte character (U+00E9)   u3 a 3-byte character (U+20AC)   bom U+FEFF (3 bytes)
+
+   Token symbols "t:<word>" stand for <word> followed by one space (grammar-level alphabets for
+   the parser: keywords, punctuation, a name, a number, a string; t:STR is "s" and t:PROTO3 is "proto3" with their quotes); TokLen gives their byte length.
+   Prefix (selected by PrefixName) is a fixed symbol sequence every text starts with (e.g. "message M {"); MaxLen and
+   ExportMin count the symbols after it.                                                       *)
 EXTENDS Naturals, Sequences, FiniteSets, TLC, Json
-CONSTANTS Alphabet, MaxLen, ExportMin
+CONSTANTS Alphabet, MaxLen, ExportMin, PrefixName
 VARIABLE text
 vars == <<text>>
 
-ByteLen(c) == CASE c = "u2" -> 2 [] c = "u3" -> 3 [] c = "bom" -> 3 [] OTHER -> 1
+TokLen == "t:syntax" :> 7 @@
+          "t:edition" :> 8 @@
+          "t:import" :> 7 @@
+          "t:package" :> 8 @@
+          "t:option" :> 7 @@
+          "t:message" :> 8 @@
+          "t:enum" :> 5 @@
+          "t:service" :> 8 @@
+          "t:extend" :> 7 @@
+          "t:rpc" :> 4 @@
+          "t:returns" :> 8 @@
+          "t:stream" :> 7 @@
+          "t:reserved" :> 9 @@
+          "t:extensions" :> 11 @@
+          "t:to" :> 3 @@
+          "t:max" :> 4 @@
+          "t:optional" :> 9 @@
+          "t:repeated" :> 9 @@
+          "t:required" :> 9 @@
+          "t:oneof" :> 6 @@
+          "t:group" :> 6 @@
+          "t:map" :> 4 @@
+          "t:int32" :> 6 @@
+          "t:string" :> 7 @@
+          "t:default" :> 8 @@
+          "t:M" :> 2 @@
+          "t:a" :> 2 @@
+          "t:1" :> 2 @@
+          "t:STR" :> 4 @@
+          "t:PROTO3" :> 9 @@
+          "t:{" :> 2 @@
+          "t:}" :> 2 @@
+          "t:(" :> 2 @@
+          "t:)" :> 2 @@
+          "t:[" :> 2 @@
+          "t:]" :> 2 @@
+          "t:<" :> 2 @@
+          "t:>" :> 2 @@
+          "t:;" :> 2 @@
+          "t:=" :> 2 @@
+          "t:," :> 2 @@
+          "t:." :> 2 @@
+          "t:-" :> 2 @@
+          "t::" :> 2
+
+Prefix == CASE PrefixName = "msg"  -> <<"t:message", "t:M", "t:{">>
+            [] PrefixName = "enum" -> <<"t:enum", "t:M", "t:{">>
+            [] PrefixName = "svc"  -> <<"t:service", "t:M", "t:{">>
+            [] PrefixName = "opt"  -> <<"t:option", "t:a", "t:=">>
+            [] OTHER               -> << >>
+
+ByteLen(c) == IF c \in DOMAIN TokLen THEN TokLen[c]
+              ELSE CASE c = "u2" -> 2 [] c = "u3" -> 3 [] c = "bom" -> 3 [] OTHER -> 1
 RECURSIVE Bytes(_, _)
 Bytes(t, k) == IF k = 0 THEN 0 ELSE ByteLen(t[k]) + Bytes(t, k - 1)
 
@@ -24,12 +81,12 @@ ValidUTF8(t) == \A k \in DOMAIN t : t[k] # "inv"
 NulPrefix(t) == \/ (Len(t) >= 1 /\ t[1] = "nul")
                 \/ (Len(t) >= 2 /\ ByteLen(t[1]) = 1 /\ t[2] = "nul")
 
-Init == text = << >>
-Next == /\ Len(text) < MaxLen
+Init == text = Prefix
+Next == /\ Len(text) < Len(Prefix) + MaxLen
         /\ \E c \in Alphabet : text' = Append(text, c)
 Spec == Init /\ [][Next]_vars
 
 Case == [kind |-> "exh", syms |-> text, len |-> Bytes(text, Len(text)),
          utf8 |-> ValidUTF8(text), nulp |-> NulPrefix(text)]
-Export == Len(text) >= ExportMin => PrintT("CASE " \o ToJson(Case))
+Export == Len(text) >= Len(Prefix) + ExportMin => PrintT("CASE " \o ToJson(Case))
 =============================================================================
